@@ -146,30 +146,29 @@ PadString(n, low, pad, lenmode) ==
   IN  << n % 256, n \div 256 >> \o bm \o [j \in 1..(32 * (1 + cnt)) |-> (j * 11) % 256]
 PadNs == IF Thorough THEN ((1..31) \cup (249..255)) \ {8, 16, 24} ELSE {1, 2, 3, 4, 5, 6, 7, 9, 12, 15, 250, 255}
 
-\* ---- the generated input space (cheap descriptors) -----------------------------------------------
+\* ---- the generated input space: cheap descriptors, enumerated by nested quantifiers in Pick (never as one
+\* big set: TLC would build and sort it single-threaded at start-up)
 SmallInitN == IF Thorough THEN 1..6 ELSE 1..4
-Cases ==
-       { << "parse", f, pat, dl >> : f \in FieldVals, pat \in 0..2, dl \in {7, 8, 39, 40, 41, 72, 73} }
-  \cup { << "pad", n, low, pad, lm >> : n \in PadNs, low \in 0..1, pad \in 0..127, lm \in 0..1 }
-  \cup { << "short", len, v >> : len \in 0..3, v \in {0, 1, 255} }
-  \cup { << "init", n, mask, nuse, mi, sd, al >> : n \in SmallInitN, mask \in 0..63, nuse \in 0..7, mi \in {0, 1, 2, 7}, sd \in 0..6, al \in 0..1 }
-  \cup { << "init", n, mask, nuse, mi, sd, 0 >> : n \in (IF Thorough THEN 7..8 ELSE 5..6), mask \in {0, 1, 6, 40, 63, 128, 255}, nuse \in {0, 1, 2, 3, 6, 8, 9}, mi \in {1, 3}, sd \in {1, 5} }
-  \cup { << "initbig", n, mk, nuse, mi, sd >> : n \in {128, 200, 255, 256, 257}, mk \in 0..4, nuse \in {0, 1, 3, 128, 255, 256, 257}, mi \in {1, 3}, sd \in {1, 2, 5} }
-  \cup { << "prove", n, nuse, m, sd >> : n \in 1..6, nuse \in 1..6, m \in {0, 3, 5}, sd \in (IF Thorough THEN {2, 5, 6} ELSE {5}) }
-  \cup { << "provebig", n, k, m >> : n \in {255, 256}, k \in (IF Thorough THEN {1, 3, 32, 256} ELSE {1, 3}), m \in {0, 254, 255} }
-  \cup { << "gen", kind >> : kind \in 0..16 }
-  \cup { << "verify", c, mut >> : c \in 1..(IF Thorough THEN 5 ELSE 4), mut \in 0..17 }
-  \cup { << "flip", bit >> : bit \in 0..(IF Thorough THEN 791 ELSE 535) }
-  \cup { << "forge", n, mut >> : n \in {2, 3}, mut \in 0..5 }
-
-CaseOk(c) ==
-  CASE c[1] = "parse" -> (c[3] < 2 \/ c[2] <= 264)
-    [] c[1] = "pad" -> c[2] % 8 # 0 /\ c[4] < 2 ^ (8 - (c[2] % 8)) /\ (c[4] > 0 \/ c[5] = 0)
-    [] c[1] = "init" -> c[3] < 2 ^ c[2] /\ c[4] <= c[2] + 1
-    [] c[1] = "initbig" -> c[4] <= c[2] + 1 /\ (c[2] = 257 => c[3] = 1 /\ c[4] = 3) /\ (c[4] >= 128 => c[5] = 1 /\ c[6] = 1)
-    [] c[1] = "prove" -> c[3] <= c[2] /\ c[4] < c[2] /\ (c[2] > 4 => c[3] \in {1, 3, c[2]})
-    [] c[1] = "provebig" -> c[4] < c[2] /\ c[3] <= c[2]
-    [] OTHER -> TRUE
+MidInitN == IF Thorough THEN 7..8 ELSE 5..6
+PickCase(c) ==
+  \/ \E f \in FieldVals, pat \in 0..2, dl \in {7, 8, 39, 40, 41, 72, 73} : (pat < 2 \/ f <= 264) /\ c = << "parse", f, pat, dl >>
+  \/ \E n \in PadNs, low \in 0..1 : \E pad \in 0..(2 ^ (8 - (n % 8)) - 1) : \E lm \in 0..(IF pad > 0 THEN 1 ELSE 0) : c = << "pad", n, low, pad, lm >>
+  \/ \E len \in 0..3, v \in {0, 1, 255} : c = << "short", len, v >>
+  \/ \E n \in SmallInitN : \E mask \in 0..(2 ^ n - 1), nuse \in 0..(n + 1), mi \in {0, 1, 2, 7}, sd \in 0..6, al \in 0..1 :
+        c = << "init", n, mask, nuse, mi, sd, al >>
+  \/ \E n \in MidInitN : \E mask \in { k \in {0, 1, 6, 40, 63, 128, 255} : k < 2 ^ n }, nuse \in { k \in {0, 1, 2, 3, 6, 8, 9} : k <= n + 1 }, mi \in {1, 3}, sd \in {1, 5} :
+        c = << "init", n, mask, nuse, mi, sd, 0 >>
+  \/ \E n \in {128, 200, 255, 256}, mk \in 0..4 :
+        \/ \E nuse \in {0, 1, 3}, mi \in {1, 3}, sd \in {1, 2, 5} : c = << "initbig", n, mk, nuse, mi, sd >>
+        \/ \E nuse \in { k \in {128, 255, 256, 257} : k <= n + 1 } : c = << "initbig", n, mk, nuse, 1, 1 >>
+  \/ c = << "initbig", 257, 1, 3, 1, 1 >>
+  \/ \E n \in 1..6 : \E nuse \in (IF n > 4 THEN {1, 3, n} ELSE 1..n), m \in { k \in {0, 3, 5} : k < n }, sd \in (IF Thorough THEN {2, 5, 6} ELSE {5}) :
+        c = << "prove", n, nuse, m, sd >>
+  \/ \E n \in {255, 256}, k \in (IF Thorough THEN {1, 3, 32, 256} ELSE {1, 3}) : \E m \in { j \in {0, 254, 255} : j < n /\ k <= n } : c = << "provebig", n, k, m >>
+  \/ \E kind \in 0..16 : c = << "gen", kind >>
+  \/ \E b \in 1..(IF Thorough THEN 5 ELSE 4), mut \in 0..17 : c = << "verify", b, mut >>
+  \/ \E bit \in 0..(IF Thorough THEN 791 ELSE 535) : c = << "flip", bit >>
+  \/ \E n \in {2, 3}, mut \in 0..5 : c = << "forge", n, mut >>
 
 ExpandInit(n, matched, nuse, mi, sd, al) ==
   LET base == [ tags |-> TagList(n, matched), out |-> OutTag, nuse |-> nuse, maxiter |-> mi, seed |-> SeedOf(sd) ] IN
@@ -269,7 +268,7 @@ Expand(c) ==
 VARIABLES phase, cur, rec
 vars == << phase, cur, rec >>
 Init == phase = "pick" /\ cur = << >> /\ rec = << >>
-Pick == phase = "pick" /\ \E c \in Cases : CaseOk(c) /\ cur' = c /\ phase' = "eval" /\ rec' = << >>
+Pick == phase = "pick" /\ PickCase(cur') /\ phase' = "eval" /\ rec' = << >>
 Eval == phase = "eval" /\ LET x == Expand(cur) IN rec' = [ e |-> x.e, in |-> x.in, out |-> Out(x) ]
         /\ phase' = "done" /\ cur' = cur
 Next == Pick \/ Eval
@@ -281,10 +280,10 @@ Emit == phase = "done" => EmitRecord(rec)
 \* ---- design-level model of Initialize over abstract tag lists: every n, every match pattern (position
 \* and multiplicity), every subset size, iteration limits incl. 0 and 1, several seeds
 ModelN == IF Thorough THEN 1..8 ELSE 1..6
-MCases == { << n, mask, nuse, mi, sd >> : n \in ModelN, mask \in 0..255, nuse \in 0..8, mi \in {0, 1, 2, 5}, sd \in 0..(IF Thorough THEN 9 ELSE 6) }
-MCaseOk(c) == c[2] < 2 ^ c[1] /\ c[3] <= c[1]
+MSeeds == 0..(IF Thorough THEN 9 ELSE 6)
 MInit == phase = "pick" /\ cur = << >> /\ rec = << >>
-MPick == phase = "pick" /\ \E c \in MCases : MCaseOk(c) /\ cur' = c /\ phase' = "eval" /\ rec' = << >>
+MPick == phase = "pick" /\ phase' = "eval" /\ rec' = << >>
+         /\ \E n \in ModelN : \E mask \in 0..(2 ^ n - 1), nuse \in 0..n, mi \in {0, 1, 2, 5}, sd \in MSeeds : cur' = << n, mask, nuse, mi, sd >>
 MEval == phase = "eval" /\ rec' = SjInitialize([k \in 1..cur[1] |-> MaskBit(cur[2], k - 1) = 1], cur[1], cur[3], cur[4], SeedOf(cur[5]))
          /\ phase' = "done" /\ cur' = cur
 MNext == MPick \/ MEval
